@@ -153,3 +153,57 @@ fn c14_utf8_1_3() {
 fn c14_utf8_3_1() {
     utf8_case::<3, 1, 4>()
 }
+
+/// LiteralData::from_str canonicalises with the same function: for every ASCII text of L bytes the stored
+/// data equals the byte-at-a-time reference (Timestamp::now is stubbed)
+pub fn stub_now() -> crate::types::Timestamp {
+    crate::types::Timestamp::from_secs(0)
+}
+fn from_str_case<const L: usize>() {
+    let raw: [u8; L] = kani::any();
+    let mut i = 0;
+    while i < L {
+        kani::assume(raw[i] < 0x80);
+        i += 1;
+    }
+    let text = match core::str::from_utf8(&raw[..]) {
+        Ok(t) => t,
+        Err(_) => return,
+    };
+    match okf(LiteralData::from_str(Bytes::new(), text)) {
+        None => assert!(false, "C14: LiteralData::from_str failed"),
+        Some(ld) => {
+            let mut exp = Pack::<1>::default();
+            let mut prev_cr = false;
+            let mut j = 0;
+            while j < L {
+                if raw[j] == b'\n' && !prev_cr {
+                    exp.push1(b'\r');
+                }
+                exp.push1(raw[j]);
+                prev_cr = raw[j] == b'\r';
+                j += 1;
+            }
+            let got = Pack::<1>::of12(ld.data());
+            kani::cover!(L >= 3 && raw[0] == b'\r' && raw[1] == b'\n' && raw[2] == b'\n', "CRLF then bare LF");
+            assert!(got.same(&exp), "C14: LiteralData::from_str does not store the canonical text");
+            core::mem::forget(ld);
+        }
+    }
+}
+#[kani::proof]
+#[kani::unwind(8)]
+#[kani::stub(std::fmt::format, crate::__verif_common::stub_format)]
+#[kani::stub(snafu::backtrace_collection_enabled, crate::__verif_common::stub_bt)]
+#[kani::stub(crate::types::Timestamp::now, stub_now)]
+fn c14_literal_from_str_3() {
+    from_str_case::<3>()
+}
+#[kani::proof]
+#[kani::unwind(9)]
+#[kani::stub(std::fmt::format, crate::__verif_common::stub_format)]
+#[kani::stub(snafu::backtrace_collection_enabled, crate::__verif_common::stub_bt)]
+#[kani::stub(crate::types::Timestamp::now, stub_now)]
+fn c14_literal_from_str_4() {
+    from_str_case::<4>()
+}
